@@ -612,10 +612,22 @@ impl<T: Object> Object for Vec<T> {
         Ok(
         match p {
             Primitive::Array(_) => {
-                p.resolve(r)?.into_array()?
-                    .into_iter()
-                    .map(|p| T::from_primitive(p, r))
-                    .collect::<Result<Vec<T>>>()?
+                let mut items = Vec::new();
+                for p in p.resolve(r)?.into_array()? {
+                    let is_ref = matches!(p, Primitive::Reference(_));
+                    match T::from_primitive(p, r) {
+                        Ok(item) => items.push(item),
+                        // an element that refers to a non-existing object is the null object:
+                        // kept where T can be null, left out otherwise
+                        Err(e) if is_ref && e.is_missing_object() => {
+                            if let Ok(item) = T::from_primitive(Primitive::Null, r) {
+                                items.push(item);
+                            }
+                        }
+                        Err(e) => return Err(e)
+                    }
+                }
+                items
             },
             Primitive::Null => {
                 Vec::new()
